@@ -357,8 +357,12 @@ func (g *Gen) RegSet(cfg GenCfg) []*Reg {
 				}
 				if len(cands) > 0 {
 					o := cands[g.n(len(cands))]
-					a.reg.Form.Params = append(a.reg.Form.Params, Param{Dep: Dep{Ty: o.id.ty, Name: o.id.name, Group: o.id.group}})
-					if o.id.name != 0 || o.id.group != 0 {
+					dp := Dep{Ty: o.id.ty, Name: o.id.name, Group: o.id.group}
+					if o.id.group == 0 && g.p(0.35) {
+						dp.Opt = true // a cycle is a cycle also when it closes through an optional field
+					}
+					a.reg.Form.Params = append(a.reg.Form.Params, Param{Dep: dp})
+					if o.id.name != 0 || o.id.group != 0 || dp.Opt {
 						a.reg.Form.InObj = true
 					}
 				}
@@ -452,7 +456,10 @@ func regOutputs(reg *Reg) []ident {
 	ty := f.Ty
 	if f.Kind == "ctor" {
 		if len(f.Rets) == 0 {
-			return []ident{{tVoid, 100 + reg.ID, 0}} // void key: unique per registration
+			if reg.Name != 0 {
+				return []ident{{tVoid, reg.Name, 0}} // a named initializer is the identity (struct{}, name)
+			}
+			return []ident{{tVoid, 1000 + reg.ID, 0}} // void key: unique per registration
 		}
 		ty = f.Rets[0]
 	}
@@ -497,6 +504,7 @@ func (g *Gen) History(regs []*Reg, p int, cfg HistCfg) []Op {
 	ids = append(ids, ident{tCtx, 0, 0}, ident{tScope, 0, 0}, ident{tProv, 0, 0})
 	nScopes := 0
 	nCtx := 0
+	cancelled := map[int]bool{}
 	var ops []Op
 	for i := 0; i < cfg.NOps; i++ {
 		x := g.rnd.Float64()
@@ -504,8 +512,8 @@ func (g *Gen) History(regs []*Reg, p int, cfg HistCfg) []Op {
 		case x < 0.22 && nScopes < cfg.MaxScopes:
 			o := Op{Kind: "createscope", P: p, Parent: g.n(nScopes + 1)}
 			if g.p(cfg.PCtx) {
-				if nCtx > 0 && g.p(0.3) {
-					o.Ctx = 1 + g.n(nCtx)
+				if c := 1 + g.n(nCtx+1); nCtx > 0 && g.p(0.3) && c <= nCtx && !cancelled[c] {
+					o.Ctx = c
 				} else {
 					nCtx++
 					o.Ctx = nCtx
@@ -518,7 +526,9 @@ func (g *Gen) History(regs []*Reg, p int, cfg HistCfg) []Op {
 		case x < 0.22+cfg.PClose+cfg.PCloseProv:
 			ops = append(ops, Op{Kind: "closeprovider", P: p})
 		case x < 0.22+cfg.PClose+cfg.PCloseProv+cfg.PCancel && nCtx > 0:
-			ops = append(ops, Op{Kind: "cancel", Ctx: 1 + g.n(nCtx)})
+			c := 1 + g.n(nCtx)
+			cancelled[c] = true
+			ops = append(ops, Op{Kind: "cancel", Ctx: c})
 		case x < 0.22+cfg.PClose+cfg.PCloseProv+cfg.PCancel+cfg.PCtxQueries && nScopes > 0:
 			h := 1 + g.n(nScopes)
 			ops = append(ops, Op{Kind: []string{"ctxvalue", "ctxdone", "fromcontext"}[g.n(3)], P: p, H: h})
